@@ -228,6 +228,7 @@ func runC11(c *Ctx, cs Case) {
 			c.Failf("file/crash@"+site+":VisitMailboxes-error", "%s: %v", desc, err)
 			return
 		}
+		var survived []*models.Msg // what the restarted store showed in the affected mailbox
 		for ci, cl := range clients {
 			before := cl.stateAt(p.cur[ci])
 			var after *models.MailStore
@@ -250,10 +251,18 @@ func runC11(c *Ctx, cs Case) {
 					}
 					continue
 				}
-				if dA := cmpList(got, after.List(name), true); dB != "" && dA != "" {
+				dA := cmpList(got, after.List(name), true)
+				if dB != "" && dA != "" {
 					c.Failf("file/crash@"+site+":neither-before-nor-after("+cl.ops[p.cur[ci]].Kind+capTag(first.cfg)+")",
 						"%s: mailbox %q is neither the state before the operation (%s) nor after it (%s)", desc, name, dB, dA)
 					return
+				}
+				if ci == p.by {
+					if dB == "" {
+						survived = before.List(name)
+					} else {
+						survived = after.List(name)
+					}
 				}
 			}
 		}
@@ -267,6 +276,16 @@ func runC11(c *Ctx, cs Case) {
 		got, err := st.GetMessages(op.Mailbox)
 		if err != nil || len(got) == 0 || got[len(got)-1].ID() != id {
 			c.Failf("file/crash@"+site+":delivery-after-crash-not-listed", "%s: new message %q not listed last: %v err=%v", desc, id, idsOf(got), err)
+			return
+		}
+		// ... and the mail that survived the crash is still there, unchanged
+		m.ID = id
+		want := append(append([]*models.Msg{}, survived...), m)
+		if first.cfg.Cap > 0 && len(want) > first.cfg.Cap {
+			want = want[len(want)-first.cfg.Cap:]
+		}
+		if d := cmpList(got, want, true); d != "" {
+			c.Failf("file/crash@"+site+":delivery-after-crash-damages-mailbox", "%s: after the new delivery (id %q) to %q: %s", desc, id, op.Mailbox, d)
 			return
 		}
 		c.Distinct("crash_states", op.Kind, site, p.partial >= 0, nInfl, stepper.stateAt(p.cur[p.by]).Hash())
